@@ -704,6 +704,36 @@ class _Gen:
             s["fields"][0]["default"] = None
         return s
 
+    def gen_sink(self, fn):
+        rng = self.rng
+        f = self.program["files"][fn]
+        en = ["ref", fn, f["enums"][0]["name"]]
+        types = [[b] for b in BASE] + [en, ["list", ["i32"]], ["set", ["string"]], ["map", ["i16"], ["double"]],
+                                       ["list", en], ["map", en, ["list", ["binary"]]]]
+        tds = [d for d in f["typedefs"] if head_kind(self.program, ["ref", fn, d["name"]]) != "struct"]
+        if tds:
+            types.append(["ref", fn, rng.choice(tds)["name"]])
+        fields, fid = [], 0
+        for t in types:
+            for mod, with_def in (("required", False), ("default", False), ("default", True),
+                                  ("optional", False), ("optional", True)):
+                d = None
+                if with_def:
+                    if not _default_safe(self.program, t):
+                        continue
+                    v = gen_value(rng, self.program, t, depth=2, safe=True)
+                    if head_kind(self.program, t) == "enum":
+                        r = resolve(self.program, t)
+                        v = rng.choice([b for _, b in lookup(self.program, r[1], r[2])[1]["values"]])
+                    d = {"value": v, "const": None}
+                fid += 1
+                fields.append({"id": fid, "name": "k%d" % self.uid(), "mod": mod, "type": t, "default": d})
+        f["structs"].append({"name": self.name(["Sink%d"]), "kind": "struct", "fields": fields})
+        # and a union over the same types
+        ufields = [{"id": i + 1, "name": "u%d" % self.uid(), "mod": "optional", "type": t, "default": None}
+                   for i, t in enumerate(types)]
+        f["structs"].append({"name": self.name(["USink%d"]), "kind": "union", "fields": ufields})
+
     def gen_service(self, fn):
         rng = self.rng
         f = self.program["files"][fn]
@@ -762,6 +792,9 @@ class _Gen:
             self.gen_struct(fn, k)
             if rng.random() < 0.3:
                 self.gen_typedefs(fn, 1)
+        # one struct per file with every base type / enum / container under every modifier, with and without default
+        if f["enums"]:
+            self.gen_sink(fn)
         # the showcase shape named in the brief: map<enum, list<struct>>
         structs = [s for s in f["structs"] if s["kind"] == "struct"]
         if structs and f["enums"]:
